@@ -23,6 +23,17 @@ open Memrun
 
 let rec nat_of_int i = if i <= 0 then O else S (nat_of_int (i - 1))
 
+let rec weight (r : reply) : int =
+  match r with
+  | RBulk b | RSimple b | RErr b | RPlain b -> List.length b
+  | RArr l -> List.fold_left (fun a x -> a + weight x) 0 l
+  | _ -> 1
+let big (r : reply) : bool = weight r > 100000
+let brief (r : reply) : string =
+  match r with
+  | RArr l -> Printf.sprintf "*[%d-elements:%d-bytes]" (List.length l) (weight r)
+  | _ -> Printf.sprintf "$(%d-bytes)" (weight r)
+
 let run_tcp infile verdictfile tracefile =
   let oc = open_out_bin verdictfile and tc = open_out_bin tracefile in
   let name = ref "" and dbs = ref 1 and now = ref "0" and nowms = ref "0" in
@@ -46,13 +57,22 @@ let run_tcp infile verdictfile tracefile =
          | [], r :: _ -> fail "count" i "no further reply" (print_reply r)
          | c :: _, [] ->
            let nm = (match c with a :: _ -> hx a | [] -> "-") in
-           fail "count" i ("a reply to command " ^ nm) "no reply"
+           let l = List.length left in
+           let rec take k = function x :: r when k > 0 -> x :: take (k - 1) r | _ -> [] in
+           fail "count" i ("a reply to command " ^ nm)
+             (if l = 0 then "no reply"
+              else Printf.sprintf "no decodable reply: %d bytes that are not a well-formed RESP value follow, starting %s" l (hx (take 40 left)))
          | c :: cs', r :: rs' ->
            incr nsteps;
            let nm = (match c with a :: _ -> String.lowercase_ascii (string_of_bytes a) | [] -> "") in
            let (m, s') = srv_exec !srv Z0 zn zms c r in
            srv := s';
-           let exp = canon_for_cmd nm (print_reply m) and obs = canon_for_cmd nm (print_reply r) in
+           (* big replies (the concurrent scenario reads MiBs of LRANGE): when model and
+              implementation are structurally equal the canonical texts, which would be equal
+              too, are not built; the trace gets a summary *)
+           let (exp, obs) =
+             if big r && m = r then (let t = brief r in (t, t))
+             else (canon_for_cmd nm (print_reply m), canon_for_cmd nm (print_reply r)) in
            Printf.fprintf tc "S %s %d %s %d %s | %s\n" !name i
              (match c with a :: _ -> hx a | [] -> "-") (List.length c) obs exp;
            if exp <> obs then fail "reply" i exp obs;
